@@ -12,6 +12,9 @@ CONSTANTS
  DevDefineFirstOnly = FALSE
  DevPairsUntyped = TRUE
  DevTableMacrosKept = FALSE
+ DevDefineLazyCond = FALSE
+ DevDefineBlockDropped = FALSE
+ DevDefineInactiveKept = FALSE
 INVARIANT LookupAgrees
 INVARIANT ConformsDev
 CHECK_DEADLOCK FALSE
